@@ -48,6 +48,8 @@ def file_text(g, i):
         t += "set allow-duplicate-recipes\nset allow-duplicate-variables\n"
     for k, (kind, tgt) in enumerate(f["edges"]):
         path = "missing.just" if tgt == "missing" else fname(tgt)
+        # the same file under three spellings: a cycle is a cycle however the path is written
+        path = ["%s", "./%s", "pad/../%s"][(i + k + (0 if tgt == "missing" else tgt)) % 3] % path
         if kind.startswith("import"):
             t += "%s '%s'\n" % (kind, path)
         else:
@@ -170,6 +172,7 @@ def model_tree(t):
 def run_case(g):
     with C.scratch("c15") as d:
         for i in range(len(g["files"])):
+            os.makedirs(os.path.join(d, "pad"), exist_ok=True)
             open(os.path.join(d, fname(i)), "w").write(file_text(g, i))
         logp = os.path.join(d, "vsh.log")
         env = dict(C.BASE_ENV)
